@@ -50,14 +50,17 @@ def what_fn(case, obs, verdict):
 def run(ctx):
     common.standard(
         ctx, harness="hC14", extracted="C14_model", driver_dir="C14",
-        rule=("non-trivial: a chosencases filter is set or a bound (limit>0 or passes>0) exists; "
+        rule=("non-trivial: a chosencases filter is set or a bound (limit>0 or passes>0) exists, every content cell; "
               "distinct = distinct case lines"),
         key_fn=key_fn, what_fn=what_fn,
+        bridge_files=["Properties/C14_content.v"],
         trusted=[
             "extraction: ExtrOcamlBasic only; OCaml driver ocaml/C14/main.ml + ocaml/common/conv.ml",
             "correspondence harness harness/cmd/hC14 + harness/internal/a08 (both real providers, preload off and on, built by "
-            "components/providers/http.NewProvider from the same afero mem file; one consumer reading every request body; bounded waits of 2 s)",
-            "modelled, not verified: the decoders at the level of the entry list (bytes -> entries is C07's); tags as numbers; Go channel hand-off and context cancellation as in C08",
+            "components/providers/http.NewProvider from the same afero mem file; one consumer reading every request body; bounded waits of 2 s; "
+            "content cells `cpair`: tag, Host and header set of every acquired ammo rendered by harness/cmd/hC14/content.go)",
+            "modelled, not verified: the decoders at the level of the item list (header lines / entries with byte-string tags; bytes -> items is C07's, linked for uri and the raw header line by C14_uri_bytes_link / C14_raw_header_whole_tag); "
+            "the decoder's live header map as a heap of maps (Model/PreloadContent.v); Go channel hand-off and context cancellation as in C08",
         ],
         assumptions=["Go channels deliver every sent item exactly once, in order; close wakes all receivers"],
     )
